@@ -62,7 +62,7 @@ def where(src, p):
 def select_many(src, f):
     for x in src:
         r = f(x)
-        if isinstance(r, list):
+        if isinstance(r, list) or hasattr(r, '__next__'):     # a list or a lazy inner collection
             for y in r:
                 yield y
         else:
